@@ -135,19 +135,6 @@ def opOrdering : Op → Ordering'
   | .mFind .. => .freeArr
   | _ => .ordered
 
-def opKeys : Op → List Key
-  | .seq _ => []
-  | .mCtor es => es.map (·.1)
-  | .mPut _ k _ | .mGet _ k | .mContains _ k | .mEntry k _ | .mFind _ k => [k]
-  | .mRemove _ ks => ks
-  | .lookup _ (some ks) => ks
-  | _ => []
-
-/-- `?` with a boolean key specifier: Python takes it as the position 0/1 of an array (F15d) -/
-def opBoolLookup : Op → Bool
-  | .lookup _ (some ks) => ks.any fun k => match k with | .bool _ => true | _ => false
-  | _ => false
-
 def sortStrings (l : List String) : List String := l.mergeSort fun a b => !(b < a)
 
 mutual
